@@ -1,7 +1,7 @@
 (** RevalRo.v — for an expression e of the read-only fragment (ReadOnly.is_ro), e@k on one trace evaluates e with
     the trace at index i+k and leaves the interpreter state EXACTLY as it was (C03). *)
 From WalModel Require Import Eval.
-From WalModel.proofs Require Import VcdProofs Balanced NavProofs RevalProofs ReadOnly ScanProofs.
+From WalModel.proofs Require Import VcdProofs Balanced NavProofs RevalProofs ReadOnly ScanProofs StackIndep.
 Local Open Scope Z_scope.
 
 Section One.
@@ -49,4 +49,55 @@ Section One.
     unfold shifted_state, cont_restore, upd_cont. simpl. rewrite String.eqb_refl. simpl.
     unfold at_idx, set1, upd_cont, with_traces. simpl. reflexivity.
   Qed.
+
+  (** the general shape: whatever the inner expression is, if it completes at the shifted position leaving that
+      state as it was, e@k yields its value and the interpreter is exactly where it was *)
+  Lemma reval_neutral_if_inner_neutral (ev : val -> M val) inner k i v :
+    valid_body inner = true -> (forall st, ev (VInt k) st = Ok (VInt k) st) -> 0 <= i + k <= tr_max t0 ->
+    ev inner (shifted_state i (i + k)) = Ok v (shifted_state i (i + k)) ->
+    op_reval ev [inner; VInt k] (at_idx tid st0 t0 i) = Ok v (at_idx tid st0 t0 i).
+  Proof.
+    intros Hvalid Hlit Hr Hin.
+    assert (Hrange : all_in_range (c_traces (st_cont (at_idx tid st0 t0 i))) k = true).
+    { unfold at_idx, set1, upd_cont, with_traces. simpl.
+      assert (E : ((tr_max t0 <? i + k) || (i + k <? 0)) = false) by lia. rewrite E. reflexivity. }
+    destruct (reval_in_range ev inner (VInt k) _ (VInt k) k _ Hvalid (Hlit _) eq_refl Hrange) as (c & Hsh & _ & Heq).
+    rewrite Heq. clear Heq.
+    assert (Ec : upd_cont (at_idx tid st0 t0 i) c = shifted_state i (i + k)).
+    { unfold shifted in Hsh. unfold cont_step, cont_store, at_idx, set1, upd_cont, with_traces, cont_indices in Hsh.
+      simpl in Hsh. unfold trace_step in Hsh. simpl in Hsh.
+      assert (E : ((i + k <? 0) || (tr_max t0 <? i + k)) = false) by lia. rewrite E in Hsh.
+      injection Hsh as <-. unfold shifted_state, at_idx, set1, upd_cont, with_traces. simpl. rewrite Htid. reflexivity. }
+    rewrite Ec, Hin.
+    unfold shifted_state, cont_restore, upd_cont. simpl. rewrite String.eqb_refl. simpl.
+    unfold at_idx, set1, upd_cont, with_traces. simpl. reflexivity.
+  Qed.
 End One.
+
+(** * composition: (e@j)@k = e@(j+k) for a read-only e, when both positions are inside the trace *)
+Theorem reval_compose lf f tid st0 t0 e j k i v s :
+  tr_tid t0 = tid -> tr_virt t0 = [] -> is_ro e = true ->
+  0 <= i + k <= tr_max t0 -> 0 <= i + k + j <= tr_max t0 ->
+  eval lf (S f) e (shifted_state tid st0 t0 i (i + k + j)) = Ok v s ->
+  op_reval (eval lf (S (S f))) [WL [VOp OReval; e; VInt j]; VInt k] (at_idx tid st0 t0 i) = Ok v (at_idx tid st0 t0 i) /\
+  op_reval (eval lf (S f)) [e; VInt (j + k)] (at_idx tid st0 t0 i) = Ok v (at_idx tid st0 t0 i).
+Proof.
+  intros Htid Hnv Hro Hk Hkj He.
+  pose proof (ro_pure lf (S f) e Hro _ _ _ (novirt_shifted tid st0 t0 Hnv i (i + k + j)) He) as ->.
+  split.
+  - (* nested *)
+    apply (reval_neutral_if_inner_neutral tid st0 t0 Htid (eval lf (S (S f))) (WL [VOp OReval; e; VInt j]) k i v);
+      [reflexivity|intros st; reflexivity|exact Hk|].
+    change (eval lf (S (S f)) (WL [VOp OReval; e; VInt j]) (shifted_state tid st0 t0 i (i + k)))
+      with (op_reval (eval lf (S f)) [e; VInt j] (shifted_state tid st0 t0 i (i + k))).
+    set (st1 := push [(tid, i)] st0).
+    change (shifted_state tid st0 t0 i (i + k)) with (at_idx tid st1 t0 (i + k)).
+    apply (reval_neutral_if_inner_neutral tid st1 t0 Htid (eval lf (S f)) e j (i + k) v);
+      [destruct e; try reflexivity; discriminate Hro|intros st; reflexivity|exact Hkj|].
+    change (shifted_state tid st1 t0 (i + k) (i + k + j)) with (push [(tid, i + k)] (shifted_state tid st0 t0 i (i + k + j))).
+    rewrite (ro_stack_independent [(tid, i + k)] lf (S f) e Hro _ (novirt_shifted tid st0 t0 Hnv i (i + k + j))), He. reflexivity.
+  - (* direct *)
+    apply (reval_neutral_if_inner_neutral tid st0 t0 Htid (eval lf (S f)) e (j + k) i v);
+      [destruct e; try reflexivity; discriminate Hro|intros st; reflexivity|lia|].
+    replace (i + (j + k)) with (i + k + j) by lia. exact He.
+Qed.
